@@ -7,18 +7,23 @@
 (* 2 a 50 km span, 3 a 140 km span (one long span: fewer elements but more kilometres than 2 x 50 km through  *)
 (* an intermediate ROADM), 4 a 300 km link that auto-design splits into two spans.  A mesh is the base-5      *)
 (* number of its link digits, so 0..5^(NSites(NSites-1)/2)-1 enumerates ALL meshes - connected or not,        *)
-(* 125 for 3 sites, 15 625 for 4 sites.                                                                       *)
+(* 125 for 3 sites, 15 625 for 4 sites.  With Doubling the ids continue: id div 5^pairs = j > 0 adds a       *)
+(* second, PARALLEL 50 km link pair (arcs <<a, b, 1>>) between the j-th pair of sites.                        *)
+(* (How a link is written in the topology file is the concretiser's business - harness/routing_util.py writes *)
+(* about half of the fibres followed by an explicit amplifier, the others bare - the graph is the same.)      *)
 (*                                                                                                            *)
 (* Batches explored on a mesh                                                                                 *)
 (*   singles   one request, every (src, dst) of SrcDst, every include list of <= 2 distinct ROADMs, every     *)
 (*             LOOSE/STRICT labelling (1 in Thin of them when thinned for the replay into the code)           *)
 (*   lines     one request whose include list names line elements of existing arcs, alone or mixed with a     *)
 (*             ROADM (LinePer seeded draws per mesh)                                                          *)
-(*   twins     the same request twice (the pipeline aggregates them)                                          *)
+(*   twins     the same request twice (the pipeline aggregates them), or twice with all hops STRICT in one    *)
+(*             and LOOSE in the other, in both orders (these must NOT be served alike)                        *)
 (*   pairs     two requests declared disjoint (every third with a free rider request, every fifth with the    *)
 (*             group stated twice, every fourth with one member all-LOOSE and the other all-STRICT, in both   *)
 (*             orders of the vector); triples: one group of three; overlaps: two groups sharing one request,  *)
-(*             the shared request first / last / in between in the vectors                                    *)
+(*             the shared request first / last / in between in the vectors, or one group nested in the other; *)
+(*             every other seeded group request gets LOOSE hops naming elements that do not exist (0..2)      *)
 (* With GroupsExhaustive the pairs are ALL pairs of requests with include lists of <= 1 ROADM (used with      *)
 (* NSites = 3); otherwise groups are seeded draws (a small linear congruential generator written in TLA+).    *)
 EXTENDS RoutingModel, Json, RoutingSample
@@ -29,6 +34,7 @@ CONSTANTS NSites,            \* number of ROADM sites
           Thin,              \* keep one single in Thin (1 = all, 0 = none)
           LinePer, TwinPer, PairPer, TriplePer, OverlapPer,   \* seeded draws per mesh
           GroupsExhaustive,  \* TRUE: all pairs of requests with <= 1 ROADM include each
+          Doubling,          \* TRUE: (not UseSample) also the meshes with one doubled pair of sites
           Salt               \* seed of the draws
 
 Nodes  == 1..NSites
@@ -42,9 +48,13 @@ PairIdx(a, b) == LET lo == MinI(a, b)
                  IN  ((lo - 1) * (2 * NSites - lo)) \div 2 + (hi - lo - 1)
 Digit(m, k)   == (m \div PowB(k)) % Base
 GraphOf(m) ==
-  LET arcs == {a \in Nodes \X Nodes : a[1] # a[2] /\ Digit(m, PairIdx(a[1], a[2])) # 0}
-  IN  [id |-> m, n |-> NSites, arcs |-> arcs, len |-> [a \in arcs |-> LinkKm[Digit(m, PairIdx(a[1], a[2]))]]]
-MeshIds  == IF UseSample THEN SampleMeshIds ELSE 0..(PowB(NPairs) - 1)
+  LET dbl  == m \div PowB(NPairs)                 \* 0: no doubled pair, j: the pair of index j - 1 is doubled
+      arcs == {<<a[1], a[2], 0>> : a \in {x \in Nodes \X Nodes : x[1] # x[2] /\ Digit(m, PairIdx(x[1], x[2])) # 0}}
+              \cup {<<a[1], a[2], 1>> : a \in {x \in Nodes \X Nodes : x[1] # x[2] /\ PairIdx(x[1], x[2]) = dbl - 1}}
+  IN  [id |-> m, n |-> NSites, arcs |-> arcs,
+       len |-> [a \in arcs |-> IF a[3] = 1 THEN 50 ELSE LinkKm[Digit(m, PairIdx(a[1], a[2]))]]]
+MeshIds  == IF UseSample THEN SampleMeshIds
+            ELSE 0..((IF Doubling THEN NPairs + 1 ELSE 1) * PowB(NPairs) - 1)
 MCGraphs == {GraphOf(m) : m \in MeshIds}
 
 \* ---- a small generator: x -> (4093 x + 7) mod 65521 stays below 2^31
@@ -59,7 +69,9 @@ OrdPairs == [k \in 1..(NSites * (NSites - 1)) |->
                LET a == (k - 1) \div (NSites - 1) + 1
                    j == ((k - 1) % (NSites - 1)) + 1
                IN  <<a, (IF j < a THEN j ELSE j + 1)>>]
-ArcSeq(G) == SelectSeq(OrdPairs, LAMBDA a : a \in G.arcs)
+OrdArcs == [k \in 1..(2 * Len(OrdPairs)) |->
+              LET pr == OrdPairs[((k - 1) % Len(OrdPairs)) + 1] IN <<pr[1], pr[2], (k - 1) \div Len(OrdPairs)>>]
+ArcSeq(G) == SelectSeq(OrdArcs, LAMBDA a : a \in G.arcs)
 
 \* ---- singles: exhaustive over ROADM include lists and labellings
 Labels(k)  == IF k = 0 THEN {<<>>} ELSE [1..k -> {0, 1}]
@@ -85,11 +97,11 @@ Walk3(G, s, x1, x2, x3) ==
                a2 == o2[(x2 % Len(o2)) + 1]
                o3 == OutArcs(G, a2[2])
                a3 == o3[(x3 % Len(o3)) + 1]
-           IN  IF a3 = a1 THEN <<LineEl(a1[1], a1[2]), LineEl(a2[1], a2[2])>>
-               ELSE <<LineEl(a1[1], a1[2]), LineEl(a2[1], a2[2]), LineEl(a3[1], a3[2])>>
+           IN  IF a3 = a1 \/ a2 = a1 THEN <<LineEl(a1), LineEl(a2)>>
+               ELSE <<LineEl(a1), LineEl(a2), LineEl(a3)>>
 RndInc(G, sd, shape, x1, x2, x3) ==
   LET arcs == ArcSeq(G)
-      L(x) == LET a == arcs[(x % Len(arcs)) + 1] IN LineEl(a[1], a[2])
+      L(x) == LineEl(arcs[(x % Len(arcs)) + 1])
       n1   == (x1 % NSites) + 1
       n2   == ((n1 + (x2 % (NSites - 1))) % NSites) + 1
       sh   == IF Len(arcs) = 0 /\ shape \in {3, 5, 6, 7, 8} THEN 2 ELSE shape
@@ -112,10 +124,23 @@ RndMate(G, r, seed, shapes) ==
 
 LineShapes  == <<3, 3, 5, 6, 7, 8>>
 GroupShapes == <<0, 1, 2, 2, 3, 4, 5, 6>>
-Lines(G)  == {Batch(<<RndReq(G, Seed(G.id, k, 1), LineShapes)>>, <<>>) : k \in 1..LinePer}
-Twins(G)  == {LET r == RndReq(G, Seed(G.id, k, 2), GroupShapes) IN Batch(<<r, r>>, <<>>) : k \in 1..TwinPer}
 Relabel(r, l) == Rq(r.s, r.d, r.inc, [k \in 1..Len(r.inc) |-> l])
 IncShapes == <<2, 3, 4, 5, 6>>          \* never empty
+Twins(G)  == {LET r == RndReq(G, Seed(G.id, k, 2), GroupShapes)
+                  q == RndReq(G, Seed(G.id, k, 2), IncShapes)
+              IN  CASE k % 3 = 1 -> Batch(<<r, r>>, <<>>)
+                    [] k % 3 = 2 -> Batch(<<Relabel(q, 1), Relabel(q, 0)>>, <<>>)
+                    [] OTHER     -> Batch(<<Relabel(q, 0), Relabel(q, 1)>>, <<>>) : k \in 1..TwinPer}
+\* LOOSE hops naming elements that do not exist, put in front of / inside the list (x picks how many and where)
+Ghosts(r, x) ==
+  LET n == x % 3
+      at == IF Len(r.inc) = 0 THEN 0 ELSE (x \div 3) % (Len(r.inc) + 1)       \* the ghosts follow hop number `at`
+  IN  IF n = 0 THEN r
+      ELSE Rq(r.s, r.d,
+              [k \in 1..at |-> r.inc[k]] \o [k \in 1..n |-> 900 + k] \o [k \in 1..(Len(r.inc) - at) |-> r.inc[at + k]],
+              [k \in 1..at |-> r.strict[k]] \o [k \in 1..n |-> 0] \o [k \in 1..(Len(r.inc) - at) |-> r.strict[at + k]])
+Haunt(r, seed, k) == IF k % 2 = 0 THEN Ghosts(r, Rnd(seed, 9)) ELSE r
+Lines(G)  == {Batch(<<Haunt(RndReq(G, Seed(G.id, k, 1), LineShapes), Seed(G.id, k, 1), k + 1)>>, <<>>) : k \in 1..LinePer}
 Pairs(G)  == {LET r1 == RndReq(G, Seed(G.id, k, 3), GroupShapes)
                   r2 == RndMate(G, r1, Seed(G.id, k, 4), GroupShapes)
                   r3 == RndReq(G, Seed(G.id, k, 5), GroupShapes)
@@ -125,18 +150,21 @@ Pairs(G)  == {LET r1 == RndReq(G, Seed(G.id, k, 3), GroupShapes)
                   ELSE IF k % 5 = 0 THEN Batch(<<r1, r2>>, <<<<1, 2>>, <<2, 1>>>>)
                   ELSE IF k % 4 = 1 THEN Batch(<<Relabel(q1, 0), Relabel(q2, 1)>>, <<<<1, 2>>>>)
                   ELSE IF k % 4 = 2 THEN Batch(<<Relabel(q1, 1), Relabel(q2, 0)>>, <<<<1, 2>>>>)
-                  ELSE Batch(<<r1, r2>>, <<<<1, 2>>>>) : k \in 1..PairPer}
+                  ELSE Batch(<<Haunt(r1, Seed(G.id, k, 3), k), Haunt(r2, Seed(G.id, k, 4), k)>>, <<<<1, 2>>>>) : k \in 1..PairPer}
 Triples(G) == {LET r1 == RndReq(G, Seed(G.id, k, 6), GroupShapes)
                    r2 == RndMate(G, r1, Seed(G.id, k, 7), GroupShapes)
                    r3 == RndMate(G, r1, Seed(G.id, k, 8), GroupShapes)
-               IN  Batch(<<r1, r2, r3>>, <<<<1, 2, 3>>>>) : k \in 1..TriplePer}
+               IN  Batch(<<r1, Haunt(r2, Seed(G.id, k, 7), k), r3>>, <<<<1, 2, 3>>>>) : k \in 1..TriplePer}
 Overlaps(G) == {LET r1 == RndReq(G, Seed(G.id, k, 9), GroupShapes)
                     r2 == RndMate(G, r1, Seed(G.id, k, 10), GroupShapes)
                     r3 == RndMate(G, r1, Seed(G.id, k, 11), GroupShapes)
-                IN  Batch(<<r1, r2, r3>>, CASE k % 4 = 0 -> <<<<1, 2>>, <<2, 3>>>>      \* shared: last, then first
-                                            [] k % 4 = 1 -> <<<<1, 2>>, <<1, 3>>>>      \* shared: first in both
-                                            [] k % 4 = 2 -> <<<<2, 1>>, <<3, 1>>>>      \* shared: last in both
-                                            [] OTHER     -> <<<<1, 3>>, <<2, 1>>>>) : k \in 1..OverlapPer}
+                IN  Batch(<<r1, r2, Haunt(r3, Seed(G.id, k, 11), k)>>,
+                          CASE k % 6 = 0 -> <<<<1, 2>>, <<2, 3>>>>      \* shared: last, then first
+                            [] k % 6 = 1 -> <<<<1, 2>>, <<1, 3>>>>      \* shared: first in both
+                            [] k % 6 = 2 -> <<<<2, 1>>, <<3, 1>>>>      \* shared: last in both
+                            [] k % 6 = 3 -> <<<<1, 3>>, <<2, 1>>>>
+                            [] k % 6 = 4 -> <<<<1, 2, 3>>, <<2, 3>>>>   \* nested: the larger first
+                            [] OTHER     -> <<<<1, 2>>, <<3, 1, 2>>>>) : k \in 1..OverlapPer}
 
 \* ---- exhaustive pairs (small NSites): all end points, include lists of <= 1 ROADM, both labels
 SmallReqs == UNION {{Rq(sd[1], sd[2], <<>>, <<>>)} \cup {Rq(sd[1], sd[2], <<n>>, <<l>>) : n \in Nodes, l \in {0, 1}} :
@@ -158,10 +186,10 @@ SubsequenceFormsAgree ==
 \* (except in the zone the property leaves undecided)
 Candidates(G, r, P) ==
   {Found(p) : p \in P}
-  \cup {[st |-> "path", p |-> pq[1], rev |-> Reverse(pq[2])] : pq \in {x \in P \X P : x[1] # x[2]}}
+  \cup {[st |-> "path", p |-> pq[1], rev |-> RevRoute(pq[2])] : pq \in {x \in P \X P : SitesOf(x[1]) # SitesOf(x[2])}}
   \cup {Blocked("NO_PATH"), Blocked("NO_PATH_WITH_CONSTRAINT"), Blocked("NO_SPECTRUM")}
-  \cup (IF <<r.s, r.d>> \in G.arcs THEN {} ELSE {Found(<<r.s, r.d>>)})
-  \cup {Found(<<r.s>> \o p) : p \in {q \in P : Len(q) >= 2}}
+  \cup (IF <<r.s, r.d, 0>> \in G.arcs THEN {} ELSE {Found(<<<<r.s, r.d, 0>>>>)})                 \* a link that is not there
+  \cup {Found(p \o <<Opposite(p[Len(p)]), p[Len(p)]>>) : p \in P}                              \* back and forth
 DeviationsAreRejected ==
   (Answered /\ batch.groups = <<>> /\ Len(batch.reqs) = 1 /\ fx[1].v # "UNDECIDED")
     => \A x \in Candidates(g, Req(1), fx[1].P) \ RouteOne(g, Req(1), fx[1].P) :
@@ -170,12 +198,12 @@ DeviationsAreRejected ==
 \* the STRICT hops can be honoured disjointly, every pair of routes fails a clause that needs no search
 PairDeviationsAreRejected ==
   (Answered /\ SinglePair(batch) /\ Len(batch.reqs) = 2)
-    => LET strong == Solutions(batch, fx, "strong") # {}
-           weak   == Solutions(batch, fx, "weak") # {}
+    => LET strong == Solutions(g, CleanBatch(batch), fx, "strong", TRUE) # {}
+           weak   == Solutions(g, CleanBatch(batch), fx, "weak", FALSE) # {}
            Two(pq) == [err |-> 0, res |-> <<Found(pq[1]), Found(pq[2])>>]
        IN  /\ \A pq \in fx[1].P \X fx[2].P :
-                ~LinkDisjoint(pq[1], pq[2]) => JudgeStructural(g, batch, Two(pq)) # {}
-           /\ strong => ~PairComplete(batch, fx, ErrOutcome)
+                SurelyOverlapping(g, pq[1], pq[2]) => JudgeStructural(g, batch, Two(pq)) # {}
+           /\ strong => ~PairComplete(g, CleanBatch(batch), fx, ErrOutcome)
            /\ ~weak => \A pq \in fx[1].P \X fx[2].P : JudgeStructural(g, batch, Two(pq)) # {}
 
 -----------------------------------------------------------------------------
@@ -184,9 +212,9 @@ Info ==
   [verdict |-> [i \in Idx |-> IF i \in Free THEN fx[i].v ELSE "GROUPED"],
    npaths  |-> [i \in Idx |-> Cardinality(fx[i].P)],
    best    |-> [i \in Idx |-> fx[i].min],
-   strong  |-> IF batch.groups = <<>> THEN 0 ELSE IF Solutions(batch, fx, "strong") # {} THEN 1 ELSE 0,
-   weak    |-> IF batch.groups = <<>> THEN 0 ELSE IF Solutions(batch, fx, "weak") # {} THEN 1 ELSE 0]
+   strong  |-> IF batch.groups = <<>> THEN 0 ELSE IF Solutions(g, CleanBatch(batch), fx, "strong", TRUE) # {} THEN 1 ELSE 0,
+   weak    |-> IF batch.groups = <<>> THEN 0 ELSE IF Solutions(g, CleanBatch(batch), fx, "weak", FALSE) # {} THEN 1 ELSE 0]
 Emit == phase # "request" \/
-        PrintT("@@" \o ToJson([mesh |-> g.id, n |-> g.n, links |-> {<<a[1], a[2], g.len[a]>> : a \in g.arcs},
+        PrintT("@@" \o ToJson([mesh |-> g.id, n |-> g.n, links |-> {<<a[1], a[2], g.len[a], a[3]>> : a \in g.arcs},
                                batch |-> batch, info |-> Info]))
 ==============================================================================
